@@ -359,6 +359,10 @@ func normOAErr(err error) string {
 		}
 		val := typeValRe.FindStringSubmatch(msg)[1]
 		cls := "user-type-name"
+		if val == "map" && strings.Contains(msg, "parameter \"") {
+			// a MapOf attribute mapped to a query parameter: Swagger 2.0 has no parameter type for it
+			return "unsupported-type-value:parameter:map"
+		}
 		switch val {
 		case "int", "int32", "int64", "uint", "uint32", "uint64", "float32", "float64", "bytes", "any", "boolean":
 			cls = "goa-primitive-name"
